@@ -120,24 +120,30 @@ class Gen:
         if ty == "int":
             if k < 0.6:
                 op = r.choice(INT_OPS)
-                e = ("bin", op, self.build_expr(depth - 1, "int"), self.build_expr(depth - 1, "int"), r.random() < 0.4)
-                return e
+                return self.bin_(op, self.build_expr(depth - 1, "int"), self.build_expr(depth - 1, "int"), r.random() < 0.4)
             if k < 0.8:
                 return ("call", r.choice([None, "this", "helper"]), r.choice(self.int_methods), self.build_args(depth - 1))
             return ("paren", self.build_expr(depth - 1, "int"))
         if ty == "bool":
             if k < 0.5:
-                return ("bin", r.choice(CMP_OPS), self.build_expr(depth - 1, "int"), self.build_expr(depth - 1, "int"), r.random() < 0.3)
-            return ("bin", r.choice(BOOL_OPS), self.build_expr(depth - 1, "bool"), self.build_expr(depth - 1, "bool"), r.random() < 0.5)
+                return self.bin_(r.choice(CMP_OPS), self.build_expr(depth - 1, "int"), self.build_expr(depth - 1, "int"), r.random() < 0.3)
+            return self.bin_(r.choice(BOOL_OPS), self.build_expr(depth - 1, "bool"), self.build_expr(depth - 1, "bool"), r.random() < 0.5)
         if ty == "str":
             if k < 0.5:
-                return ("bin", "+", ("lit", self.lit_str()), self.build_expr(depth - 1, r.choice(["int", "str"])), False)
+                return self.bin_("+", ("lit", self.lit_str()), self.build_expr(depth - 1, r.choice(["int", "str"])), False)
             return ("lit", self.lit_str())
         return ("lit", "null")
 
     def build_args(self, depth):
         n = self.r.choice([0, 1, 1, 2, 3])
         return [self.build_expr(depth, self.r.choice(["int", "str", "int"])) for _ in range(n)]
+
+    def bin_(self, op, l, r, paren):
+        """a binary node whose operands are parenthesised when they are binary themselves, so that the text
+        parses back to exactly this tree whatever the operators' precedences"""
+        def wrap(x):
+            return ("bin", x[1], x[2], x[3], True) if x[0] == "bin" else x
+        return ("bin", op, wrap(l), wrap(r), paren)
 
     def expr_text(self, e):
         t = e[0]
